@@ -669,6 +669,19 @@ impl GraphTensor {
     #[must_use]
     pub fn restore(snapshot: GraphTensorSnapshot) -> Self {
         let graph = Self::new();
+        graph.fill_from(snapshot);
+        graph
+    }
+
+    /// Replaces the contents of this graph with the contents of a snapshot.
+    pub fn replace_with(&self, snapshot: GraphTensorSnapshot) {
+        self.clear();
+        self.fill_from(snapshot);
+    }
+
+    /// Loads a snapshot into an empty graph.
+    fn fill_from(&self, snapshot: GraphTensorSnapshot) {
+        let graph = self;
 
         // Restore edge types using consolidated registry
         {
@@ -721,8 +734,6 @@ impl GraphTensor {
         // Build the CSR now that the counters are in place (reads scan the
         // pending log linearly until the first merge).
         graph.merge();
-
-        graph
     }
 
     /// Intern an edge type string, returning its ID.
